@@ -177,6 +177,17 @@ def u_ctl():
     add("ctl-if", ["a: %s" % Q2, "b: %s" % Q2], "bool", ["c = False", "if a > b:", "    c = True", "return c"])
     add("ctl-if", ["a: bool", "b: bool"], "bool", ["c = a", "if b:", "    c = not c", "return c"])
     add("ctl-if", ["a: bool", "b: bool", "c: bool"], "bool", ["d = a", "if b:", "    d = d ^ c", "if c:", "    d = not d", "return d"])
+    # the tested variable is reassigned inside the branch it guards
+    add("ctl-if", ["c: bool", "a: %s" % Q2], Q2, ["b = a", "if c:", "    c = False", "    b = a + 1", "return b"])
+    add("ctl-if", ["c: bool", "a: %s" % Q2], Q2, ["b = a", "if c:", "    c = not c", "    b = a + 1", "else:", "    c = not c", "    b = a + 2", "return b"])
+    add("ctl-if", ["c: bool", "d: bool"], "bool", ["e = d", "if c:", "    c = d", "    e = not d", "return e ^ c"])
+    add("ctl-if", ["c: bool", "d: bool"], "bool", ["e = d", "if c:", "    e = not e", "else:", "    c = True", "    e = e and c", "return e"])
+    add("ctl-if", ["a: %s" % Q2, "b: %s" % Q2], Q2, ["g = a > b", "r = b", "if g:", "    g = False", "    r = a", "return r"])
+    add("ctl-multi", ["a: bool", "b: bool"], "Tuple[bool, bool]", ["x, y = a, b", "x, y = y, x", "return (x, y)"])
+    add("ctl-multi", ["a: bool", "b: bool", "c: bool"], "bool", ["x, y, z = a, b, c", "x, y, z = y, z, x", "return x and not y and z"])
+    add("ctl-multi", ["a: %s" % Q2, "b: %s" % Q2], Q2, ["x, y = a, b", "x, y = y, x + y", "return y ^ x"])
+    add("ctl-multi", ["a: %s" % Q2, "b: %s" % Q2], Q2, ["x = a", "y = b", "for i in range(2):", "    x, y = y, x + y", "return x"])
+    add("ctl-multi", ["a: bool", "b: bool"], "bool", ["a, b = b, a", "return a and not b"])
     add("ctl-for", ["a: %s" % Q2], Q4, ["c = 0", "for i in range(3):", "    c += a", "return c"])
     add("ctl-for", ["a: %s" % Q2], Q4, ["c = 0", "for i in range(4):", "    c = c + i", "return c + a"])
     add("ctl-for", ["a: %s" % Q4], "bool", ["c = False", "for i in range(4):", "    c = c ^ a[i]", "return c"])
